@@ -2,7 +2,6 @@ import DadiVerif.Lemmas.DemesConv
 import DadiVerif.Lemmas.DemesGraph
 import DadiVerif.Lemmas.DemesAugment
 import DadiVerif.Lemmas.DemesWiring
-import DadiVerif.Lemmas.DemesSlice
 import DadiVerif.Lemmas.DemesUnits
 import DadiVerif.Generated.Admix
 /-!
@@ -140,8 +139,24 @@ theorem C16_root_size : rootNuPassed = true := by decide
     start time (the previous epoch's original end time, or the deme's start) and its original end time, younger epochs are dropped;
     for every number of epochs and every position of the slice time. -/
 theorem C16_slice_epochs (t : ℚ) (st : ETime) (eps : List InEpoch) :
-    shiftEpochs t st eps = sliceSpec t st eps :=
-  shiftEpochs_eq_sliceSpec t st eps
+    shiftEpochs t st eps = sliceSpec t st eps := by
+  unfold shiftEpochs
+  induction eps generalizing st with
+  | nil => rfl
+  | cons e rest ih =>
+    unfold loopBreak sliceSpec
+    by_cases h : e.et ≤ t
+    · have h0 : ratMax 0 (e.et - t) = 0 := by
+        unfold ratMax; split_ifs with h1
+        · linarith
+        · rfl
+      simp [shiftStep, h0, h]
+    · have h1 : ratMax 0 (e.et - t) = e.et - t := by
+        unfold ratMax; split_ifs with h2
+        · rfl
+        · linarith
+      have h2 : ¬ (e.et - t = 0) := by intro h3; apply h; linarith
+      simp [shiftStep, h1, h, h2, ih]
 
 /-- the size `_size_at` gives the cut epoch at the slice time is the size the import (`_sizes_at_time`) itself assigns to that epoch
     at time `t` on the unsliced graph — constant, exponential and linear, for arbitrary `exp` / `log` -/
@@ -389,8 +404,65 @@ theorem C16_slice_sizes (ex lg : ℚ → ℚ) (pw : ℚ → ℚ → ℚ) (hlog :
     (hes : (sliceSizeAt fn t ss es (some s) et).map (Sym.eval ex lg pw) = some es')
     (x y : ℚ) (hy0 : 0 ≤ y) :
     (sizesAt fn ss es' (some (s - t)) (some 0) (s - t - 0) (some x) (some y)).map (evalPair ex lg pw)
-      = (sizesAt fn ss es (some s) (some et) (s - et) (some (x + t)) (some (y + t))).map (evalPair ex lg pw) :=
-  sizesAt_sliced ex lg pw hlog fn t ss es s et es' hss h1 h2 hcut hes x y hy0
+      = (sizesAt fn ss es (some s) (some et) (s - et) (some (x + t)) (some (y + t))).map (evalPair ex lg pw) := by
+  have hety : ¬ et = y + t := by intro h; linarith
+  have hett : ¬ et = t := by intro h; linarith
+  cases fn with
+  | other => simp [sizesAt]
+  | constant =>
+    have hes' : es' = ss := by
+      simp [sliceSizeAt, Sym.eval] at hes
+      exact hes.symm
+    subst hes'
+    by_cases hx : x = s - t <;> by_cases hy : y = 0
+    · subst hx; subst hy; simp [sizesAt, teq, evalPair, Sym.eval, hett]
+    · subst hx; simp [sizesAt, teq, evalPair, Sym.eval, hety, hy, Ne.symm hy]
+    · subst hy
+      have hx1 : ¬ s - t = x := fun h => hx h.symm
+      have hx2 : ¬ s = x + t := fun h => hx (by linarith)
+      simp [sizesAt, teq, evalPair, Sym.eval, hett, hx1, hx2]
+    · have hx1 : ¬ s - t = x := fun h => hx h.symm
+      have hx2 : ¬ s = x + t := fun h => hx (by linarith)
+      simp [sizesAt, teq, evalPair, Sym.eval, hety, hx1, hx2, Ne.symm hy]
+  | linear =>
+    have hes' : es' = ss + (s - t) / (s - et) * (es - ss) := by
+      simp [sliceSizeAt, Sym.eval, tval] at hes
+      linarith [hes]
+    subst hes'
+    have e1 : ∀ u : ℚ, (s - t - u) / (s - t) * ((s - t) / (s - et) * (es - ss)) = (s - (u + t)) / (s - et) * (es - ss) := by
+      intro u; field_simp; ring
+    by_cases hx : x = s - t <;> by_cases hy : y = 0
+    · subst hx; subst hy; simp [sizesAt, teq, evalPair, Sym.eval, tval, hett]
+    · subst hx; simp [sizesAt, teq, evalPair, Sym.eval, tval, hety, Ne.symm hy, e1]
+    · subst hy
+      have hx1 : ¬ s - t = x := fun h => hx h.symm
+      have hx2 : ¬ s = x + t := fun h => hx (by linarith)
+      simp [sizesAt, teq, evalPair, Sym.eval, tval, hett, hx1, hx2, e1]
+    · have hx1 : ¬ s - t = x := fun h => hx h.symm
+      have hx2 : ¬ s = x + t := fun h => hx (by linarith)
+      simp [sizesAt, teq, evalPair, Sym.eval, tval, hety, hx1, hx2, Ne.symm hy, e1]
+  | exponential =>
+    have hes' : es' = ss * ex (lg (es / ss) * (s - t) / (s - et)) := by
+      simp [sliceSizeAt, Sym.eval, tval] at hes
+      linarith [hes]
+    have hratio : es' / ss = ex (lg (es / ss) * (s - t) / (s - et)) := by
+      rw [hes']; field_simp
+    have hkey : ∀ u : ℚ, lg (es' / ss) * (s - t - u) / (s - t) = lg (es / ss) * (s - (u + t)) / (s - et) := by
+      intro u
+      rw [hratio, hlog]
+      field_simp
+      ring
+    have hes2 := hes'.symm
+    by_cases hx : x = s - t <;> by_cases hy : y = 0
+    · subst hx; subst hy; simp [sizesAt, teq, evalPair, Sym.eval, tval, hett, hes2]
+    · subst hx; simp [sizesAt, teq, evalPair, Sym.eval, tval, hety, Ne.symm hy, hkey]
+    · subst hy
+      have hx1 : ¬ s - t = x := fun h => hx h.symm
+      have hx2 : ¬ s = x + t := fun h => hx (by linarith)
+      simp [sizesAt, teq, evalPair, Sym.eval, tval, hett, hx1, hx2, hkey, hes2]
+    · have hx1 : ¬ s - t = x := fun h => hx h.symm
+      have hx2 : ¬ s = x + t := fun h => hx (by linarith)
+      simp [sizesAt, teq, evalPair, Sym.eval, tval, hety, hx1, hx2, Ne.symm hy, hkey]
 
 /-- non-vacuity: a linear epoch 50 → 150 on (100, 0) cut at 30 (end size 120); the interval (40, 10) of the sliced graph -/
 example : (sliceSizeAt SizeFn.linear 30 50 150 (some 100) 0).map (Sym.eval id id fun x _ => x) = some 120
@@ -412,7 +484,7 @@ theorem C16_slice_graph (t : ℚ) (g : Graph InEpoch) (ht : t ≠ 0) :
     ∧ sliceGraph 0 g = g.toOut := by
   have h0 : (t == 0) = false := by simpa using ht
   have hsp : ∀ d : GDeme InEpoch, loopBreak (shiftStep t) d.start d.epochs = sliceSpec t d.start d.epochs :=
-    fun d => shiftEpochs_eq_sliceSpec t d.start d.epochs
+    fun d => C16_slice_epochs t d.start d.epochs
   have hfm : ∀ {α β : Type} (c : α → Bool) (f : α → β) (l : List α),
       l.filterMap (fun x => if c x then none else some (f x)) = (l.filter fun x => !c x).map f := by
     intro α β c f l
